@@ -75,6 +75,7 @@ class Rec:
         self.samples = []
         self.current = None
         self.extra = Counter()  # free-form integer counters (steps, loads, ...)
+        self.distinct_by_construction = 0  # enumerations: no digest needed
         self.marker = None  # open file: "case about to run", for crashes
 
     def begin(self, case):
@@ -93,6 +94,13 @@ class Rec:
     def count(self, key, n=1):
         self.extra[key] += n
 
+    def nontrivial_enum(self, case=None):
+        """Non-trivial case of an enumeration whose cases are pairwise distinct."""
+        self.distinct_by_construction += 1
+        if len(self.samples) < self.MAX_SAMPLES:
+            case = self.current if case is None else case
+            self.samples.append(json.loads(json.dumps(case, default=str)))
+
     def nontrivial(self, case=None, key=None):
         case = self.current if case is None else case
         d = digest(case if key is None else key)
@@ -108,6 +116,7 @@ class Rec:
             "classes": dict(self.classes),
             "samples": self.samples,
             "extra": dict(self.extra),
+            "distinct_by_construction": self.distinct_by_construction,
         }
 
 
@@ -230,6 +239,8 @@ def _task(pmod, sub, tier, seed, shard, nshards, marker_path):
     """Body of a child process; returns the result dict."""
     from . import build
 
+    if sub.variant.startswith("asan") and os.environ.get("VFW_ASAN_CHILD") != "1":
+        return _asan_parent(pmod, sub, tier, seed, shard, nshards, marker_path)
     if sub.rlimit_gb and sub.variant not in ("asan", "asanfuzz"):
         lim = int(sub.rlimit_gb * (1 << 30))
         resource.setrlimit(resource.RLIMIT_AS, (lim, lim))
@@ -263,6 +274,58 @@ def _task(pmod, sub, tier, seed, shard, nshards, marker_path):
     out["rec"] = rec.export()
     out["wall"] = time.time() - t0
     return out
+
+
+def _asan_summary(stderr):
+    lines = [l for l in stderr.splitlines() if "AddressSanitizer" in l or l.strip().startswith("#0")
+             or l.strip().startswith("#1") or "located" in l]
+    return " | ".join(l.strip() for l in lines[:6]) or stderr[-400:]
+
+
+def _asan_parent(pmod, sub, tier, seed, shard, nshards, marker_path):
+    """Run the task in an exec'd child with the ASan runtime preloaded."""
+    import subprocess
+
+    from . import build
+
+    out_path = marker_path + ".out"
+    for pth in (out_path, marker_path):
+        try:
+            os.remove(pth)
+        except OSError:
+            pass
+    cmd = [sys.executable, "-m", "vfw.asan_child", pmod.__name__, sub.name, tier,
+           str(seed), str(shard), str(nshards), marker_path, out_path]
+    t0 = time.time()
+    r = subprocess.run(cmd, env=build.asan_env(), capture_output=True, text=True, cwd=VERIF)
+    base = {"sub": sub.name, "shard": shard, "failure": None, "harness_error": None,
+            "rec": Rec().export(), "wall": time.time() - t0}
+    try:
+        if r.returncode == 0 and os.path.exists(out_path):
+            with open(out_path) as f:
+                return json.load(f)
+        case = None
+        try:
+            with open(marker_path) as f:
+                case = json.load(f)
+        except Exception:
+            pass
+        if case is not None and ("AddressSanitizer" in r.stderr or r.returncode < 0 or r.returncode == 99):
+            base["failure"] = {
+                "sig": "AddressSanitizer report" if "AddressSanitizer" in r.stderr else "crash under ASan",
+                "message": "kernel run under AddressSanitizer aborted (exit %s): %s"
+                           % (r.returncode, _asan_summary(r.stderr)),
+                "case": case, "seed": seed, "shard": shard,
+            }
+        else:
+            base["harness_error"] = "asan child exit %s\n%s" % (r.returncode, r.stderr[-3000:])
+        return base
+    finally:
+        for pth in (out_path,):
+            try:
+                os.remove(pth)
+            except OSError:
+                pass
 
 
 def _child(conn, args):
@@ -322,9 +385,11 @@ def run_tasks(pmod, tier, seed, only=None, timeout=None):
             if parent.poll():
                 try:
                     res = parent.recv()
-                except EOFError:
-                    res = None
-                p.join(10)
+                    p.join(10)
+                except (EOFError, OSError):
+                    # pipe closed without a result: the child died
+                    p.join(10)
+                    res = _crash_result(t, p.exitcode)
             elif sent in ready or not p.is_alive():
                 p.join(10)
                 if parent.poll():
@@ -413,6 +478,10 @@ def replay_isolated(pmod, path):
     """Replay in a forked child (so that each replay can pick its variant)."""
     import multiprocessing
 
+    with open(path) as f:
+        subname = json.load(f)["sub"]
+    if find_sub(pmod, subname).variant.startswith("asan"):
+        return _replay_asan(pmod, path)
     ctx = multiprocessing.get_context("fork")
     parent, child = ctx.Pipe(duplex=False)
     p = ctx.Process(target=_replay_child, args=(child, pmod, path))
@@ -427,6 +496,33 @@ def replay_isolated(pmod, path):
     if p.exitcode is not None and (p.exitcode < 0 or p.exitcode == 99):
         return "process crashed with exit code %r" % p.exitcode
     raise HarnessError("replay of %s: child exit %r without result" % (path, p.exitcode))
+
+
+def _replay_asan(pmod, path):
+    import subprocess
+    import tempfile
+
+    from . import build
+
+    build.build_variant("asan")
+    fd, out = tempfile.mkstemp(dir=os.path.join(VERIF, ".cache"), suffix=".replay")
+    os.close(fd)
+    os.remove(out)
+    r = subprocess.run([sys.executable, "-m", "vfw.asan_child", "--replay", pmod.__name__,
+                        os.path.abspath(path), out],
+                       env=build.asan_env(), capture_output=True, text=True, cwd=VERIF)
+    try:
+        if r.returncode == 0 and os.path.exists(out):
+            with open(out) as f:
+                return json.load(f)["message"]
+        if "AddressSanitizer" in r.stderr or r.returncode < 0 or r.returncode == 99:
+            return "aborted under AddressSanitizer (exit %s): %s" % (r.returncode, _asan_summary(r.stderr))
+        raise HarnessError("asan replay child exit %s: %s" % (r.returncode, r.stderr[-2000:]))
+    finally:
+        try:
+            os.remove(out)
+        except OSError:
+            pass
 
 
 def save_failure(pmod, failure, sub):
@@ -465,8 +561,9 @@ def write_evidence(pmod, tier, seed, results, wall, violations, replayed):
         s = per_sub.setdefault(
             r["sub"],
             {"evaluations": 0, "distinct_nontrivial": set(), "classes": Counter(),
-             "extra": Counter(), "samples": [], "shards": 0, "wall_s": 0.0},
+             "extra": Counter(), "samples": [], "shards": 0, "wall_s": 0.0, "dbc": 0},
         )
+        s["dbc"] += rec.get("distinct_by_construction", 0)
         s["evaluations"] += rec["evaluations"]
         s["distinct_nontrivial"].update(rec["digests"])
         s["classes"].update(rec["classes"])
@@ -484,10 +581,15 @@ def write_evidence(pmod, tier, seed, results, wall, violations, replayed):
     for name, s in per_sub.items():
         for smp in s["samples"]:
             samples.append({"sub": name, "case": smp})
-        s["distinct_nontrivial"] = len(s["distinct_nontrivial"])
+        s["distinct_nontrivial"] = len(s["distinct_nontrivial"]) + s.pop("dbc")
         s["classes"] = dict(sorted(s["classes"].items()))
         s["extra"] = dict(sorted(s["extra"].items()))
         s["exhaustive"] = subs_by_name[name].exhaustive
+    if not samples:
+        samples = [{"sub": r["sub"], "case": r["failure"]["case"], "failing": True}
+                   for r in results if r["failure"]][:4]
+    if not samples:
+        samples = [{"note": "no case completed"}]
     ev = {
         "property_id": pmod.PROPERTY,
         "tier": tier,
@@ -495,7 +597,7 @@ def write_evidence(pmod, tier, seed, results, wall, violations, replayed):
         "level": pmod.LEVEL,
         "coverage": {
             "evaluations": int(evaluations),
-            "distinct_nontrivial": len(digests),
+            "distinct_nontrivial": sum(s["distinct_nontrivial"] for s in per_sub.values()),
             "rule": pmod.RULE,
             "samples": samples[:12],
             "exhaustive": all_exhaustive,
@@ -513,7 +615,14 @@ def write_evidence(pmod, tier, seed, results, wall, violations, replayed):
     with open(tmp, "w") as f:
         json.dump(ev, f, indent=1, default=str)
     os.replace(tmp, path)
-    _selfcheck_evidence(path)
+    try:
+        _selfcheck_evidence(path)
+    except Exception as e:
+        if violations:
+            sys.stderr.write("warning: evidence of this failing run does not validate: %s\n"
+                             % str(e).splitlines()[0])
+        else:
+            raise HarnessError("evidence file does not validate: %s" % e)
     return path
 
 
